@@ -8,6 +8,9 @@ import (
 	"regexp"
 	"sort"
 	"strings"
+
+	"github.com/specterops/dawgs/cypher/frontend"
+	"github.com/specterops/dawgs/cypher/models/cypher"
 )
 
 func repoRoot() string {
@@ -96,4 +99,42 @@ func insertBeforeLastReturn(q, clause string) (string, bool) {
 	}
 	at := locs[len(locs)-1][0]
 	return q[:at] + clause + " " + q[at:], true
+}
+
+// Model is a query model the real parser built from a text of the corpora or of the harness's own input classes.
+type Model struct {
+	Text  string
+	Tag   string
+	Query *cypher.RegularQuery
+}
+
+// Models parses every corpus text, grammar-form statement, multi-part query and expression-position text and returns
+// the models of those the parser accepts.
+func Models() []Model {
+	var texts []fuzzInput
+	for _, c := range Corpus() {
+		texts = append(texts, fuzzInput{text: c.Text, class: "corpus:" + c.Tag})
+	}
+	for _, in := range fuzzInputs(nil0(), 0, false) {
+		if in.class == "statement" || in.class == "expr-position" {
+			texts = append(texts, in)
+		}
+	}
+	for i, q := range multiPart() {
+		if i%4 == 0 {
+			texts = append(texts, fuzzInput{text: q, class: "multipart"})
+		}
+	}
+	var out []Model
+	seen := map[string]bool{}
+	for _, in := range texts {
+		if seen[in.text] {
+			continue
+		}
+		seen[in.text] = true
+		if p := parseWith(frontend.NewContext(), in.text); p.ok && p.model != nil {
+			out = append(out, Model{in.text, in.class, p.model})
+		}
+	}
+	return out
 }
